@@ -19,11 +19,15 @@ def main(path):
     fn = replayers.REPLAYERS[case['kind']]
     try:
         fails = fn(concepts, case)
-    except Exception as e:  # an unexpected exception of the real code on the counterexample input
+    except Exception as e:
+        # an exception escaping from REPOSITORY code on the counterexample input is a failure of the real code;
+        # an exception raised by the harness itself is a harness error (exit 2), never a verdict
         import traceback
-        fails = [f'unexpected {type(e).__name__}: {e}', traceback.format_exc()[-1200:]]
-        if case.get('expect_exception_is_failure', True) is False:
+        tb = traceback.extract_tb(e.__traceback__)
+        inner = tb[-1].filename if tb else ''
+        if not os.path.realpath(inner).startswith(os.path.realpath(REPO) + os.sep):
             raise
+        fails = [f'unexpected {type(e).__name__}: {e}', traceback.format_exc()[-1200:]]
     if fails:
         print(f'REPRODUCED property={case.get("property")} kind={case["kind"]}: {len(fails)} failure(s)')
         for x in fails[:12]:
